@@ -99,10 +99,10 @@ Lemma L_ext h0 l hc : linv h0 l hc -> exists nw, hc = nw ++ h0.
 Proof. destruct l as [g|]; cbn [linv]; intros J; [exact (U_ext J)|exists []; exact J]. Qed.
 
 (* ------------------------------------------------------------------ frames *)
-Record fr := { f_env : env; f_nxt : nat; f_fl : flags; f_acc : list term }.
-Definition fr0 (r : env) (nx : nat) : fr := {| f_env := r; f_nxt := nx; f_fl := flags0; f_acc := [] |}.
+Record fr := { f_env : env; f_nxt : nat; f_fl : flags; f_acc : list term; f_aux : nat }.
+Definition fr0 (r : env) (nx : nat) : fr := {| f_env := r; f_nxt := nx; f_fl := flags0; f_acc := []; f_aux := 0 |}.
 Definition set_fl (g : flags -> flags) (e : fr) : fr :=
-  {| f_env := f_env e; f_nxt := f_nxt e; f_fl := g (f_fl e); f_acc := f_acc e |}.
+  {| f_env := f_env e; f_nxt := f_nxt e; f_fl := g (f_fl e); f_acc := f_acc e; f_aux := f_aux e |}.
 Definition setfl (e : fr) (f : flags) : fr := set_fl (fun _ => f) e.
 
 Definition mkst (h : heap) (g : nat) : st := {| sto := h; nxt := g |}.
@@ -115,7 +115,7 @@ Notation miexpr := (iexpr lx callp).
 (* x = e  (Sem/Machine.assign: `variable()` takes the next cell) *)
 Definition do_assign (x : str) (ex : expr) (g : nat) (e : fr) (h : heap) : fr :=
   let '(r', s') := assign x ex (f_env e, mkst h g) in
-  {| f_env := r'; f_nxt := nxt s'; f_fl := f_fl e; f_acc := f_acc e |}.
+  {| f_env := r'; f_nxt := nxt s'; f_fl := f_fl e; f_acc := f_acc e; f_aux := f_aux e |}.
 
 (* iterator expressions of the generated code (Sem/Machine.iter) *)
 Definition it_expr (it : expr) (g : nat) (e : fr) (h : heap) : miexpr :=
@@ -196,8 +196,12 @@ Definition call_expr (goal : term) (extra : list term) : nat -> fr -> heap -> mi
 
 (* findall: results = makelist([get_value(template) for r in q]) *)
 Definition collect (template : term) : nat -> fr -> heap -> fr :=
-  fun g e h => {| f_env := f_env e; f_nxt := Nat.max (f_nxt e) g; f_fl := f_fl e;
-                  f_acc := f_acc e ++ [den_fast h template] |}.
+  fun g e h => {| f_env := f_env e; f_nxt := f_nxt e; f_fl := f_fl e;
+                  f_acc := f_acc e ++ [den_fast h template]; f_aux := Nat.max (f_aux e) g |}.
+(* the result list may contain cells created while the goal ran: the counter moves past them *)
+Definition collected : nat -> fr -> heap -> fr :=
+  fun _ e _ => {| f_env := f_env e; f_nxt := Nat.max (f_nxt e) (f_aux e); f_fl := f_fl e;
+                  f_acc := f_acc e; f_aux := f_aux e |}.
 
 Definition builtin_code (name : str) (args : list term) : mcode * env :=
   if str_eqb name (s_ "=") then
@@ -220,7 +224,8 @@ Definition builtin_code (name : str) (args : list term) : mcode * env :=
     match args with
     | [t; g; l] =>
         (CSeq (CFor (call_expr g []) (CAssign (collect t)))
-              (CFor (fun _ e _ => ELeaf (XUnify l (mk_list (f_acc e)))) CYield), [])
+           (CSeq (CAssign collected)
+              (CFor (fun _ e _ => ELeaf (XUnify l (mk_list (f_acc e)))) CYield)), [])
     | _ => (CSkip, []) end
   else (CSkip, []).
 
@@ -239,7 +244,7 @@ Fixpoint facts_code (fs : list fact) (args : list term) : mcode :=
   | [] => CSkip
   | (m, vals) :: r =>
       CSeq (CAssign (fun g e _ => {| f_env := f_env e; f_nxt := g + m; f_fl := f_fl e;
-                                     f_acc := map (shift_term g) vals |}))
+                                     f_acc := map (shift_term g) vals; f_aux := f_aux e |}))
         (CSeq (CFor (fun _ e _ => ELeaf (XArrays args (f_acc e))) CYield)
            (facts_code r args))
   end.
@@ -256,7 +261,7 @@ Section Prog.
       | Some f => (fun_code (fn_body f), fr0 (bind_args 0 args) nx)
       | None =>
           match user name args with
-          | Some (c, e) => (c, {| f_env := f_env e; f_nxt := nx; f_fl := f_fl e; f_acc := f_acc e |})
+          | Some (c, e) => (c, {| f_env := f_env e; f_nxt := nx; f_fl := f_fl e; f_acc := f_acc e; f_aux := f_aux e |})
           | None => let '(c, r) := builtin_code name args in (c, fr0 r nx)
           end
       end in
